@@ -1648,6 +1648,235 @@ def translate_append_extend(src_dir: str) -> str:
         METHODS, CFG_ATTRS, STATE_ATTRS, ORACLES, CFG_TYPE, LOCAL_ELT, EXTRA_PARAMS, MONAD, EXPR_HOOKS, STMT_SKIP, RECEIVERS = saved
     return ''.join(out)
 
+# ---- helpers.unique_filter / helpers.split_mask and the LaserPath views (C11): straight-line numpy code, read operation by
+#      operation as the array semantics of coq/tie/NpState.v
+_NP_PYLISTS = {'arrays', 'sp'}          # names that hold python lists (of arrays), not arrays
+_NP_RESHAPE = ("Expr(value=Call(func=Attribute(value=Name(id='data'), attr='reshape'), args=[UnaryOp(op=USub(), operand=Constant(value=1)), "
+               "Call(func=Name(id='len'), args=[Name(id='arrays')], keywords=[])], keywords=[]))")
+_NP_DELETE = (r"Call\(func=Attribute\(value=Name\(id='np'\), attr='delete'\), args=\[Name\(id='(\w+)'\), Call\(func=Attribute\(value=Name\(id='np'\), "
+              r"attr='where'\), args=\[Call\(func=Attribute\(value=Name\(id='np'\), attr='invert'\), args=\[Call\(func=Attribute\(value=Name\(id='(\w+)'\), "
+              r"attr='astype'\), args=\[Name\(id='bool'\)\], keywords=\[\]\)\], keywords=\[\]\)\], keywords=\[\]\)\], keywords=\[\]\)")
+_NP_OPTION_RET = {'lastx', 'lasty', 'lastz'}
+
+
+def _np_is(e, mod, attr):
+    return isinstance(e, ast.Attribute) and isinstance(e.value, ast.Name) and e.value.id == mod and e.attr == attr
+
+
+def _np_const_index(sl):
+    if isinstance(sl, ast.Constant) and isinstance(sl.value, int) and not isinstance(sl.value, bool):
+        return sl.value
+    if isinstance(sl, ast.UnaryOp) and isinstance(sl.op, ast.USub) and isinstance(sl.operand, ast.Constant) and isinstance(sl.operand.value, int):
+        return -sl.operand.value
+    return None
+
+
+def _np_slice_kind(sl):
+    """'from1' for [1:], 'to_m1' for [:-1], 'evens' for [0::2], 'odds' for [1::2]"""
+    if not isinstance(sl, ast.Slice):
+        return None
+    lo, hi, st = _np_const_index(sl.lower) if sl.lower is not None else None, \
+        _np_const_index(sl.upper) if sl.upper is not None else None, _np_const_index(sl.step) if sl.step is not None else None
+    if (sl.lower is not None and lo is None) or (sl.upper is not None and hi is None) or (sl.step is not None and st is None):
+        raise Unsupported('slice bound that is not an integer constant')
+    key = (lo, hi, st)
+    kinds = {(1, None, None): 'from1', (None, -1, None): 'to_m1', (0, None, 2): 'evens', (1, None, 2): 'odds'}
+    if key not in kinds:
+        raise Unsupported(f'slice {key}')
+    return kinds[key]
+
+
+def _h_np(tr, e, env):
+    d = dump(e)
+    if isinstance(e, ast.Call) and _np_is(e.func, 'np', 'array') and len(e.args) == 1 and not e.keywords:
+        a = e.args[0]
+        if isinstance(a, ast.List) and not a.elts:
+            return [], '(A1 [])'
+        if isinstance(a, ast.List):
+            effs, ts = [], []
+            for x in a.elts:
+                eff, t = tr.E(x, env)
+                effs += eff
+                ts.append(t)
+            v = env.fresh('arr')
+            return effs + [(v, f'nd_of_items [{"; ".join(ts)}]')], v
+        return tr.E(a, env)
+    if isinstance(e, ast.Attribute) and e.attr in ('T', 'size', 'ndim') and not (isinstance(e.value, ast.Name) and e.value.id == 'np'):
+        eff, t = tr.E(e.value, env)
+        return eff, f"({ {'T': 'nd_T', 'size': 'nd_size', 'ndim': 'nd_ndim'}[e.attr] } {t})"
+    if (isinstance(e, ast.Call) and isinstance(e.func, ast.Attribute) and e.func.attr == 'astype' and len(e.args) == 1 and not e.keywords
+            and _np_is(e.args[0], 'np', 'float32')):
+        eff, t = tr.E(e.func.value, env)
+        return eff, f'(nd_map cast {t})'
+    if (isinstance(e, ast.Call) and _np_is(e.func, 'np', 'stack') and len(e.args) == 1 and len(e.keywords) == 1 and e.keywords[0].arg == 'axis'
+            and _np_const_index(e.keywords[0].value) == -1):
+        eff, t = tr.E(e.args[0], env)
+        v = env.fresh('stacked')
+        return eff + [(v, f'nd_stack_last {t}')], v
+    if isinstance(e, ast.Subscript):
+        base_is_pylist = isinstance(e.value, ast.Name) and e.value.id in _NP_PYLISTS
+        kind = _np_slice_kind(e.slice)
+        if kind in ('evens', 'odds'):
+            if not base_is_pylist:
+                raise Unsupported('strided slice of an array')
+            return [], f'({kind} {cname(e.value.id)})'
+        if kind is not None:
+            if base_is_pylist:
+                raise Unsupported('slice of a python list')
+            eff, t = tr.E(e.value, env)
+            v = env.fresh('sl')
+            return eff + [(v, f'nd_{kind} {t}')], v
+        k = _np_const_index(e.slice)
+        if k is not None and not base_is_pylist:
+            eff, t = tr.E(e.value, env)
+            v = env.fresh('item')
+            return eff + [(v, f'nd_item ({k}) {t}')], v
+        if isinstance(e.slice, ast.Name) and not base_is_pylist:
+            eff, t = tr.E(e.value, env)
+            v = env.fresh('sel')
+            return eff + [(v, f'nd_bool_index {cname(e.slice.id)} {t}')], v
+        if k is None:
+            raise Unsupported(f'subscript {d[:120]}')
+        return None
+    if (isinstance(e, ast.Compare) and len(e.ops) == 1 and isinstance(e.ops[0], ast.NotEq)
+            and any(isinstance(x, ast.Subscript) and isinstance(x.slice, ast.Slice) for x in (e.left, e.comparators[0]))):
+        e1, t1 = tr.E(e.left, env)
+        e2, t2 = tr.E(e.comparators[0], env)
+        v = env.fresh('ne')
+        return e1 + e2 + [(v, f'nd_ne cell_eqb {t1} {t2}')], v
+    if (isinstance(e, ast.Call) and _np_is(e.func, 'np', 'any') and len(e.args) == 1 and len(e.keywords) == 1 and e.keywords[0].arg == 'axis'
+            and _np_const_index(e.keywords[0].value) == 1):
+        eff, t = tr.E(e.args[0], env)
+        v = env.fresh('any')
+        return eff + [(v, f'nd_any_axis1 {t}')], v
+    if (isinstance(e, ast.Call) and _np_is(e.func, 'np', 'insert') and len(e.args) == 3 and not e.keywords
+            and _np_const_index(e.args[1]) == 0 and isinstance(e.args[2], ast.Constant) and e.args[2].value is True):
+        eff, t = tr.E(e.args[0], env)
+        return eff, f'(nd_insert0 true {t})'
+    if (isinstance(e, ast.BinOp) and isinstance(e.op, ast.Add) and _np_const_index(e.right) == 1 and isinstance(e.left, ast.Subscript)
+            and _np_const_index(e.left.slice) == 0 and isinstance(e.left.value, ast.Call) and _np_is(e.left.value.func, 'np', 'nonzero')
+            and len(e.left.value.args) == 1 and not e.left.value.keywords):
+        eff, t = tr.E(e.left.value.args[0], env)
+        v = env.fresh('idx')
+        return eff + [(v, f'nd_nonzero_succ {t}')], v
+    if isinstance(e, ast.Call) and _np_is(e.func, 'np', 'split') and len(e.args) == 2 and not e.keywords:
+        e1, t1 = tr.E(e.args[0], env)
+        e2, t2 = tr.E(e.args[1], env)
+        v = env.fresh('parts')
+        return e1 + e2 + [(v, f'nd_split {t1} {t2}')], v
+    if isinstance(e, ast.Call) and isinstance(e.func, ast.Name) and e.func.id == 'unique_filter' and len(e.args) == 1 and not e.keywords:
+        eff, t = tr.E(e.args[0], env)
+        v = env.fresh('uf')
+        return eff + [(v, f'src_unique_filter c {t}')], v
+    if isinstance(e, ast.Call) and isinstance(e.func, ast.Name) and e.func.id == 'float' and len(e.args) == 1 and not e.keywords:
+        eff, t = tr.E(e.args[0], env)
+        v = env.fresh('scalar')
+        return eff + [(v, f'nd_scalar {t}')], v
+    m = re.fullmatch(_NP_DELETE, d)
+    if m:
+        v = env.fresh('kept')
+        return [(v, f'nd_keep_where nz {cname(m.group(2))} {cname(m.group(1))}')], v
+    if isinstance(e, ast.IfExp) and isinstance(e.test, ast.Subscript):
+        et, tt = tr.E(e.test, env)
+        eb, tb = tr.E(e.body, env)
+        eo, to = tr.E(e.orelse, env)
+        if eb or eo:
+            raise Unsupported('effect in a branch of a conditional expression')
+        v = env.fresh('test')
+        return et + [(v, f'nd_scalar {tt}')], f'(if {v} then {tb} else {to})'
+    if isinstance(e, ast.Call) and (isinstance(e.func, ast.Attribute) and isinstance(e.func.value, ast.Name) and e.func.value.id == 'np'):
+        raise Unsupported(f'numpy call outside the subset: {d[:160]}')
+    return None
+
+
+def _s_np(tr, s, rest, env, tail):
+    if dump(s) == _NP_RESHAPE:
+        return tr.T(rest, env, tail)          # the result of reshape is discarded
+    if (isinstance(s, ast.Try) and len(s.handlers) == 1 and not s.orelse and not s.finalbody and s.handlers[0].name is None
+            and s.handlers[0].type is not None and _np_is(s.handlers[0].type, 'np', 'AxisError')
+            and len(s.body) == 1 and len(s.handlers[0].body) == 1):
+        b, h = s.body[0], s.handlers[0].body[0]
+        if (isinstance(b, ast.Assign) and isinstance(h, ast.Assign) and len(b.targets) == 1 and len(h.targets) == 1
+                and isinstance(b.targets[0], ast.Name) and dump(b.targets[0]) == dump(h.targets[0])):
+            eb, tb = tr.E(b.value, env)
+            eh, th = tr.E(h.value, env)
+            n = cname(b.targets[0].id)
+            return f'{n} <- catch_axis ({tr.wrap(eb, "ret " + tb)}) ({tr.wrap(eh, "ret " + th)}) ;; {tr.T(rest, env, tail)}'
+        raise Unsupported('try / except np.AxisError of another shape')
+    if isinstance(s, ast.Try):
+        raise Unsupported('try statement')
+    if isinstance(s, ast.Return) and env.meth in _NP_OPTION_RET:
+        if s.value is None or (isinstance(s.value, ast.Constant) and s.value.value is None):
+            return 'ret None'
+        eff, t = tr.E(s.value, env)
+        return tr.wrap(eff, f'ret (Some {t})')
+    if isinstance(s, ast.Assign) and len(s.targets) == 1 and isinstance(s.targets[0], ast.Tuple) and all(isinstance(x, ast.Name) for x in s.targets[0].elts):
+        names = [cname(x.id) for x in s.targets[0].elts]
+        v = s.value
+        if isinstance(v, ast.Tuple) and len(v.elts) == len(names):
+            effs, ts = [], []
+            for x in v.elts:
+                eff, t = tr.E(x, env)
+                effs += eff
+                ts.append(t)
+            tmps = [env.fresh('rhs') for _ in names]
+            body = tr.T(rest, env, tail)
+            for n, tmp in reversed(list(zip(names, tmps))):
+                body = f'let {n} := {tmp} in {body}'
+            for tmp, t in reversed(list(zip(tmps, ts))):
+                body = f'let {tmp} := {t} in {body}'
+            return tr.wrap(effs, body)
+        eff, t = tr.E(v, env)
+        if isinstance(v, ast.Call) and isinstance(v.func, ast.Name) and v.func.id == 'unique_filter':
+            r = env.fresh('rows')
+            eff, t = eff + [(r, f'nd_rows {t}')], r
+        return tr.wrap(eff, f"match {t} with [{'; '.join(names)}] => {tr.T(rest, env, tail)} | _ => raise EValue end")
+    return None
+
+
+_UF_HEADER = """Section Src.
+Context {cell : Type} (ceq : cell -> cell -> bool) (cast : cell -> cell) (nz : cell -> bool).
+(* `!=` on the cells of a trajectory is negb ceq; on the booleans of a mask it is xor *)
+Class CellEq (A : Type) := cell_eqb : A -> A -> bool.
+Local Instance celleq_cell : CellEq cell := ceq.
+Local Instance celleq_bool : CellEq bool := Bool.eqb.
+Notation cfg__x := lv__x. Notation cfg__y := lv__y. Notation cfg__z := lv__z. Notation cfg__f := lv__f. Notation cfg__s := lv__s.
+
+"""
+
+
+def translate_views(src_dir: str) -> str:
+    global METHODS, CFG_ATTRS, STATE_ATTRS, ORACLES, CFG_TYPE, LOCAL_ELT, EXTRA_PARAMS, MONAD, EXPR_HOOKS, STMT_SKIP, RECEIVERS, STMT_HOOKS
+    saved = (METHODS, CFG_ATTRS, STATE_ATTRS, ORACLES, CFG_TYPE, LOCAL_ELT, EXTRA_PARAMS, MONAD, EXPR_HOOKS, STMT_SKIP, RECEIVERS, STMT_HOOKS)
+    out = [PURE_PREAMBLE % ('helpers.py, laserpath.py', ' Base.Dedup Base.Runs', 'NpState'), _UF_HEADER]
+    try:
+        hl = ast.parse(pathlib.Path(src_dir, 'helpers.py').read_text())
+        funs = {n.name: n for n in hl.body if isinstance(n, ast.FunctionDef) and n.name in ('unique_filter', 'split_mask')}
+        if len(funs) != 2:
+            raise Unsupported('helpers.py: unique_filter / split_mask not found')
+        lp = ast.parse(pathlib.Path(src_dir, 'laserpath.py').read_text())
+        cls = [n for n in lp.body if isinstance(n, ast.ClassDef) and n.name == 'LaserPath']
+        if len(cls) != 1:
+            raise Unsupported('class LaserPath not found')
+        views = {'points': 'nd cell', 'x': 'nd cell', 'y': 'nd cell', 'z': 'nd cell', 'lastx': 'option cell', 'lasty': 'option cell',
+                 'lastz': 'option cell', 'lastpt': 'nd cell', 'path3d': 'list (nd cell)', 'path': 'list (nd cell)'}
+        METHODS = {'unique_filter': ('method', [('arrays', 'list (nd cell)')], 'nd cell'),
+                   'split_mask': ('method', [('arr', 'nd cell'), ('mask', 'nd bool')], 'list (nd cell)')}
+        METHODS.update({k: ('property', [], v) for k, v in views.items()})
+        CFG_ATTRS, STATE_ATTRS, ORACLES = {'_x', '_y', '_z', '_f', '_s'}, {}, {}
+        CFG_TYPE, LOCAL_ELT, EXTRA_PARAMS, MONAD = '(lv_cfg cell)', {}, '', 'MN'
+        EXPR_HOOKS, STMT_SKIP, RECEIVERS, STMT_HOOKS = [_h_np], [], {'self'}, [_s_np]
+        trh = Tr(ast.ClassDef(name='helpers', bases=[], keywords=[], body=list(funs.values()), decorator_list=[]))
+        for name in ('unique_filter', 'split_mask'):
+            out.append(trh.method(name) + '\n')
+        trl = Tr(cls[0])
+        for name in views:
+            out.append(trl.method(name) + '\n')
+        out.append('End Src.\n')
+    finally:
+        METHODS, CFG_ATTRS, STATE_ATTRS, ORACLES, CFG_TYPE, LOCAL_ELT, EXTRA_PARAMS, MONAD, EXPR_HOOKS, STMT_SKIP, RECEIVERS, STMT_HOOKS = saved
+    return ''.join(out)
+
 
 def main(argv):
     """py2coq.py <dir of femto sources> <output dir> <group>...   groups: pgm (PgmSrc.v), SrcLp.v, SrcNw.v, SrcTc.v, SrcTr.v"""
@@ -1663,6 +1892,8 @@ def main(argv):
                 name, text = g, translate_writers(str(src_dir))
             elif g == 'SrcAe.v':
                 name, text = g, translate_append_extend(str(src_dir))
+            elif g == 'SrcUf.v':
+                name, text = g, translate_views(str(src_dir))
             elif g == 'SrcSs.v':
                 name, text = g, translate_sheet(str(src_dir))
             elif g == 'SrcTn.v':
